@@ -71,6 +71,18 @@ class Schema(object):
             s.append('CREATE UNIQUE INDEX %s ON %s (%s);' % (name, kind, ', '.join(attrs)))
         return '\n'.join(s) + '\n'
 
+    def to_json(self):
+        return dict(classes=[[k, [list(a) for a in at]] for k, at in self.classes],
+                    rops=[[r.rel, r.src, r.src_keys, r.src_card, r.src_phrase,
+                           r.tgt, r.tgt_keys, r.tgt_card, r.tgt_phrase] for r in self.rops],
+                    uniques=[[u[0], u[1], list(u[2])] for u in self.uniques])
+
+    @staticmethod
+    def from_json(j):
+        return Schema([(k, [tuple(a) for a in at]) for k, at in j['classes']],
+                      [Rop(*r) for r in j['rops']],
+                      [(u[0], u[1], list(u[2])) for u in j['uniques']])
+
     def describe(self):
         return dict(classes=[[k, ['%s:%s' % a for a in at]] for k, at in self.classes],
                     rops=[r.describe() for r in self.rops],
@@ -368,8 +380,13 @@ class Bound(object):
             return None
         return self.hid.get(id(inst), 'unknown-instance')
 
-    def new(self, kind, **values):
-        inst = self.m.new(kind, **values)
+    def new(*args, **values):
+        self, kind = args
+        # attributes called like a parameter of MetaModel.new / MetaClass.new cannot be keywords
+        late = dict((a, values[a]) for a in values if a.lower() in ('self', 'kind'))
+        inst = self.m.new(kind, **dict((a, v) for a, v in values.items() if a not in late))
+        for a, v in late.items():
+            setattr(inst, a, v)
         K = kind.upper()
         row = {}
         ref = set(a.upper() for a in self.schema.referential(K))
